@@ -72,19 +72,131 @@ func (r Req) canonicalKind() bool {
 
 // genToken: a configured auth_token. Any non-empty string an operator can put into YAML whose exact
 // "Bearer <token>" value survives the HTTP parser (no trailing blank, no control characters).
+// docs/admin-api-security.md calls the token a JWT and recommends >= 32 characters, so about half of
+// the tokens are long (65..400 bytes), JWT-shaped or random; the rest are short and odd.
 func genToken(t *rapid.T) string {
-	switch rapid.IntRange(0, 9).Draw(t, "tokkind") {
-	case 0:
+	switch rapid.IntRange(0, 11).Draw(t, "tokkind") {
+	case 0, 4, 8:
+		return genJWT(t, genLongLen(t))
+	case 1, 5:
+		return genLongRandom(t, genLongLen(t))
+	case 2:
 		return "change-me"
-	case 1:
+	case 3:
 		return rapid.SampledFrom([]string{"a", "Bearer", "Bearer x", "x y", " lead", "tok,en", "t=k/+==", "ключ", "a  b", "0"}).Draw(t, "tokodd")
 	}
-	s := rapid.StringOfN(rapid.RuneFrom([]rune("abcdefXYZ0123456789-_.~+/= :,é")), 1, 40, -1).Draw(t, "tok")
+	s := rapid.StringOfN(rapid.RuneFrom([]rune("abcdefXYZ0123456789-_.~+/= :,é")), 1, 64, -1).Draw(t, "tok")
 	s = strings.TrimRight(s, " ")
 	if s == "" {
 		s = "t"
 	}
 	return s
+}
+
+const b64url = "ABCDEFGHIJKLMNOPQRSTUVWXYZabcdefghijklmnopqrstuvwxyz0123456789-_"
+
+// genLongLen: a token length in bytes, 65..400, biased to the sizes where fixed-size buffers, hash
+// block sizes and length bytes change (57+7 = 64 is the length of "Bearer "+token for a 57-byte token).
+func genLongLen(t *rapid.T) int {
+	if rapid.IntRange(0, 2).Draw(t, "lenedge") > 0 {
+		return rapid.SampledFrom([]int{65, 66, 71, 100, 121, 127, 128, 129, 135, 249, 255, 256, 257, 263, 400}).Draw(t, "toklen-edge")
+	}
+	return rapid.IntRange(65, 400).Draw(t, "toklen")
+}
+
+func b64seg(t *rapid.T, n int, label string) string {
+	return rapid.StringOfN(rapid.RuneFrom([]rune(b64url)), n, n, n).Draw(t, label)
+}
+
+// genJWT: three dot-separated base64url segments (header.payload.signature) of exactly n bytes.
+func genJWT(t *rapid.T, n int) string {
+	const hdr = "eyJhbGciOiJIUzI1NiIsInR5cCI6IkpXVCJ9" // {"alg":"HS256","typ":"JWT"}
+	rest := n - len(hdr) - 2
+	sig := min(rapid.SampledFrom([]int{43, 86, 342}).Draw(t, "siglen"), rest-4)
+	payload := rest - sig
+	p := b64seg(t, payload, "payload")
+	if payload >= 3 {
+		p = "eyJ" + p[3:]
+	}
+	return hdr + "." + p + "." + b64seg(t, sig, "sig")
+}
+
+// genLongRandom: n printable ASCII bytes (blanks and punctuation inside, none at the end).
+func genLongRandom(t *rapid.T, n int) string {
+	s := rapid.StringOfN(rapid.RuneFrom([]rune(b64url+"+/=.~:, ")), n, n, n).Draw(t, "longtok")
+	if s[n-1] == ' ' {
+		s = s[:n-1] + "x"
+	}
+	return s
+}
+
+// otherByte returns a byte different from c that is valid at the end of a header value.
+func otherByte(c byte) string {
+	if c == 'A' {
+		return "B"
+	}
+	return "A"
+}
+
+// genLongRelated draws a presented credential that is related to a (typically long) configured token:
+// a leading part only, the last byte changed, the tail replaced, trailing garbage, or a different
+// token that shares a long common prefix. Every result differs from the token by construction (the
+// oracle does its own equality test anyway). Works for short tokens too (cuts are clamped).
+func genLongRelated(t *rapid.T, token string) (presented string, class string) {
+	n := len(token)
+	tag := "near-long-"
+	if n < 65 {
+		tag = "near-short-"
+	}
+	if n < 2 {
+		return otherByte(token[0]), tag + "last-byte-changed"
+	}
+	cut := func(label string, cands []int) int { // a cut position 1..n-1, preferably one of cands
+		var ok []int
+		for _, c := range cands {
+			if c >= 1 && c < n {
+				ok = append(ok, c)
+			}
+		}
+		if len(ok) == 0 {
+			return max(1, n-1)
+		}
+		return rapid.SampledFrom(ok).Draw(t, label)
+	}
+	switch rapid.IntRange(0, 6).Draw(t, "longrel") {
+	case 0: // the first 32/64/100/128 bytes of the token only
+		return token[:cut("first", []int{32, 64, 100, 128})], tag + "first-bytes-only"
+	case 1: // the credential cut where a fixed-size buffer of the whole header value would end
+		k := cut("hdrcut", []int{32 - 7, 64 - 7, 128 - 7, 256 - 7})
+		return token[:k], tag + "header-cut-at-power-of-two"
+	case 2: // full length, last byte changed
+		return token[:n-1] + otherByte(token[n-1]), tag + "last-byte-changed"
+	case 3: // full length, everything after byte 64/100 (or 57 = 64-7) replaced
+		k := cut("tailfrom", []int{57, 64, 100, n - 8})
+		tail := b64seg(t, n-k, "newtail")
+		if tail[0] == token[k] {
+			tail = otherByte(token[k]) + tail[1:]
+		}
+		return token[:k] + tail, tag + "tail-replaced"
+	case 4: // the full token plus trailing garbage
+		return token + rapid.SampledFrom([]string{"x", "A", ".", "=", ".c2ln", "AAAAAAAA", " x", ",x"}).Draw(t, "garbage"), tag + "plus-trailing-garbage"
+	case 5: // a different token that shares exactly the first k bytes (any length afterwards)
+		k := cut("common", []int{57, 64, 100, 128, n - 8, n - 1})
+		tail := b64seg(t, rapid.IntRange(1, 48).Draw(t, "othertail"), "othertok")
+		if tail[0] == token[k] {
+			tail = otherByte(token[k]) + tail[1:]
+		}
+		return token[:k] + tail, tag + "other-token-common-prefix"
+	}
+	// JWT-style: same header and payload, another signature (common prefix up to the last dot)
+	if i := strings.LastIndexByte(token, '.'); i > 0 && i < n-1 {
+		sig := b64seg(t, n-i-1, "othersig")
+		if sig == token[i+1:] {
+			sig = otherByte(sig[0]) + sig[1:]
+		}
+		return token[:i+1] + sig, tag + "same-claims-other-signature"
+	}
+	return token[:n-1] + otherByte(token[n-1]), tag + "last-byte-changed"
 }
 
 func flipCase(s string) string {
@@ -108,7 +220,13 @@ func genAuth(t *rapid.T, token string) (lines []string, class string) {
 	exact := "Bearer " + token
 	wrong := "Bearer " + rapid.SampledFrom([]string{"wrong", "change-me", "admin", "null", "undefined", "0"}).Draw(t, "wrongtok")
 	one := func(v, c string) ([]string, string) { return []string{strings.Trim(v, " \t")}, c }
-	switch 27 - rapid.IntRange(0, 27).Draw(t, "authkind") { // rapid favours small draws: near misses get them
+	switch 33 - rapid.IntRange(0, 33).Draw(t, "authkind") { // rapid favours small draws: near misses get them
+	case 28, 29, 30, 31, 32, 33: // credentials related to (long) tokens
+		p, c := genLongRelated(t, token)
+		if rapid.IntRange(0, 7).Draw(t, "longtwo") == 0 {
+			return []string{wrong, strings.Trim("Bearer "+p, " \t")}, "two-lines-none-exact"
+		}
+		return one("Bearer "+p, c)
 	case 0, 1, 2:
 		return one(exact, "exact")
 	case 3:
@@ -239,6 +357,9 @@ func genEntry(t *rapid.T) Entry {
 	}
 	switch rapid.IntRange(0, 3).Draw(t, "form") {
 	case 0:
+		if !v6 && rapid.IntRange(0, 3).Draw(t, "mapped-entry") == 0 {
+			return wellFormed("::ffff:" + a.String()) // single address in IPv4-mapped spelling: means a
+		}
 		return wellFormed(a.String()) // single address
 	case 1:
 		return wellFormed(fmt.Sprintf("%s/%d", a, bits)) // host bits possibly set ("10.1.2.3/8")
